@@ -60,31 +60,48 @@ pub fn prim_real(rng: &mut Rng, prim_dot: bool) -> f32 {
 
 const NAME_CHARS: &[u8] = b"ABCDEFGHIJKLMNOPQRSTUVWXYZabcdefghijklmnopqrstuvwxyz0123456789_.-+*'\"!$&:;=?@^`|~";
 
+/// a name: any string (`Name` is a `SmallString`, i.e. valid UTF-8): regular characters, white-space, delimiters,
+/// `#`, control characters incl. NUL, and characters of every UTF-8 length
 pub fn name_str(rng: &mut Rng) -> String {
-    if rng.chance(1, 2) {
-        return rng.pick(&["F1", "GS0", "Im1", "Cs6", "P0", "Sh1", "Span", "MC0", "DeviceRGB", "Pattern", "R", "true", "BI", "q"]).to_string();
+    match rng.below(8) {
+        0..=2 => rng.pick(&["F1", "GS0", "Im1", "Cs6", "P0", "Sh1", "Span", "MC0", "DeviceRGB", "Pattern", "R", "true", "BI", "q"]).to_string(),
+        3..=4 => {
+            let n = 1 + rng.usize(8);
+            (0..n).map(|_| *rng.pick(NAME_CHARS) as char).collect()
+        }
+        5 => {
+            let n = rng.usize(6);
+            (0..n).map(|_| *rng.pick(b" #/()<>[]{}%\t\n\r\x0c\x00Aa1\\\x7f") as char).collect()
+        }
+        _ => {
+            let n = rng.usize(6);
+            (0..n)
+                .map(|_| match rng.below(6) {
+                    0 => *rng.pick(&['\u{e9}', '\u{df}', '\u{7ff}', '\u{80}']),
+                    1 => *rng.pick(&['\u{20ac}', '\u{800}', '\u{ffff}', '\u{d7ff}', '\u{e000}']),
+                    2 => *rng.pick(&['\u{1f600}', '\u{10000}', '\u{10ffff}']),
+                    3 => char::from_u32(rng.below(0x11_0000) as u32).unwrap_or('x'),
+                    _ => (rng.below(128) as u8) as char,
+                })
+                .collect()
+        }
     }
-    let n = 1 + rng.usize(8);
-    (0..n).map(|_| *rng.pick(NAME_CHARS) as char).collect()
 }
 
+/// a string: any bytes (all 256 values, CR, LF, parentheses, backslashes)
 pub fn string_bytes(rng: &mut Rng) -> Vec<u8> {
     let n = match rng.below(8) {
         0 => 0,
         1..=5 => 1 + rng.usize(8),
         _ => 9 + rng.usize(40),
     };
-    let kind = rng.below(4);
+    let kind = rng.below(5);
     (0..n)
         .map(|_| match kind {
-            0 => *rng.pick(b"abc ()\\xyz01"),
+            0 => *rng.pick(b"abc ()\\xyz01\r\n"),
             1 => 0x20 + rng.below(0x5f) as u8,
-            2 => loop {
-                let b = rng.byte();
-                if b != 0x0d {
-                    break b;
-                }
-            },
+            2 => rng.byte(),
+            3 => rng.below(128) as u8,
             _ => *rng.pick(b"Hello, World"),
         })
         .collect()
